@@ -19,7 +19,7 @@ RULE = ('seeded generator: arrays and cubes 1..14 per side (even/odd/non-square)
 ASSUMPTIONS = ['binary-shape comparisons skip pixels whose exactly computed edge margin is < 1e-9 (ties are not evidence)']
 PLAN = {'quick': {'gen': 8}, 'thorough': {'gen': 16, 'tests': 1, 'docs': 1}}
 REQUIRED_BUCKETS = ['pad:2d', 'pad:cube', 'pad:nonsquare-cube', 'pad:grow', 'pad:shrink', 'pad:mixed',
-                    'pad:parity-change', 'subarray', 'window', 'boundary', 'boundary:signed-frame', 'slice_offset', 'centroid', 'rebin',
+                    'pad:parity-change', 'subarray', 'window', 'boundary', 'boundary:signed-frame', 'slice_offset', 'slice_offset:open-ended', 'centroid', 'rebin',
                     'rebin:cube', 'rebin:small-int', 'mesh', 'shape:circle', 'shape:hexagon', 'shape:rectangle', 'shape:spider', 'shape:sequence', 'shape:binary',
                     'shape:antialias', 'hexseg', 'hexseg:gap0', 'hexseg:drop', 'hexseg:drop-repeated', 'rescale:origin', 'dtype:reduced-precision']
 REQUIRED_ANCHORS = ['probe:pad', 'anchor:mesh', 'anchor:hex_to_rc', 'anchor:slice_offset', 'anchor:boundary_slice']
@@ -344,6 +344,21 @@ def workload(ctx, lentil):
                   dict(desc, offset=[int(v) for v in off], slice=str(sl)))
         ctx.check(tuple(H.slice_offset(Ellipsis, s)) == (0, 0), 'slice_offset=render', 'slice_offset|ellipsis',
                   'slice_offset(Ellipsis) is not (0, 0)', desc)
+        # the same window written the way slices are usually written by hand - open ends (a[2:, :5], a[:, :]), the whole array as
+        # [..., :] - is the same window
+        r0_, r1_, c0_, c1_ = (int(v) for v in got)
+        forms_ = [(np.s_[r0_:, c0_:c1_], np.s_[r0_:s[0], c0_:c1_]), (np.s_[:r1_, :c1_], np.s_[0:r1_, 0:c1_]), (np.s_[:, :], np.s_[0:s[0], 0:s[1]]),
+                  (np.s_[..., :], np.s_[0:s[0], 0:s[1]])]
+        ctx.bucket('slice_offset:open-ended')
+        for open_, closed_ in forms_:
+            try:
+                want_ = tuple(int(v) for v in H.slice_offset(closed_, s))
+                got_ = tuple(int(v) for v in H.slice_offset(open_, s))
+                ctx.check(got_ == want_, 'slice_offset=render', 'slice_offset|open-ended',
+                          'a slice with open ends has another offset than the same window with its ends written out',
+                          dict(desc, slice=str(open_), got=list(got_), want=list(want_)))
+            except Exception as e:
+                ctx.check(False, 'slice_offset=render', f'slice_offset|open-ended|raises={type(e).__name__}', f'{open_}: {e}', desc)
         # centroid
         ctx.case({'op': 'centroid', 'shape': list(s)}, ['centroid'])
         xp = np.abs(x) + (rng.random(s) if rng.random() < 0.5 else 0)
